@@ -107,7 +107,7 @@ def entry_cases(rng, tier, kinds=("setter", "method")):
         if not cands:
             cases.append({"kind": "entry", "target": None, "owner": owner, "member": member, "ekind": kind})
             continue
-        pick = cands if tier == "thorough" else [cands[0]] + ([rng.choice(cands)] if len(cands) > 1 and rng.chance(25) else [])
+        pick = cands if tier == "thorough" else [cands[0]] + ([rng.choice(cands)] if len(cands) > 1 and rng.chance(12) else [])
         seen = set()
         for l in pick:
             if l in seen:
@@ -176,7 +176,7 @@ def gen_seq(rng, explicit):
 
 def generate(rng, tier):
     cases = entry_cases(rng, tier)
-    nseq = 60 if tier == "quick" else 1500
+    nseq = 45 if tier == "quick" else 1500
     # fixed sequences: a failed removal leaves a dead referent, the listing getter then has to sweep it (a write)
     cases.append({"kind": "seq", "lock": False, "ops": [
         _entry_op(("type_float", "EntityType", "create", "method")), {"op": "gc"}, {"op": "list", "kind": "types"},
